@@ -41,13 +41,33 @@ type bconn struct {
 	mu      sync.Mutex
 	joined  bool // JoinGame was sent on this connection
 	closed  bool // the proxy closed it (or we did)
+	answered bool        // the backend has sent its decisive packet (JoinGame / Disconnect / …) or closed
 	stalled chan struct{} // closed when the script reached its stall point
 	release chan struct{} // closed to let a stalled script go on
 }
 
-func (c *bconn) isClosed() bool { c.mu.Lock(); defer c.mu.Unlock(); return c.closed }
+// closed as soon as either side closed the in-memory pipe (no goroutine has to notice first)
+func (c *bconn) isClosed() bool {
+	c.mu.Lock()
+	defer c.mu.Unlock()
+	return c.closed || c.ep.Conn.Closed()
+}
 func (c *bconn) isJoined() bool { c.mu.Lock(); defer c.mu.Unlock(); return c.joined }
 func (c *bconn) markClosed()    { c.mu.Lock(); c.closed = true; c.mu.Unlock() }
+
+// answer: from now on the backend has decided this login attempt (called BEFORE the decisive packet is sent, so a
+// request that was answered can never be seen as unanswered by a later dial).
+func (c *bconn) answer() {
+	c.mu.Lock()
+	was := c.answered
+	c.answered = true
+	c.mu.Unlock()
+	if !was {
+		c.srv.w.mu.Lock()
+		c.srv.w.unanswered--
+		c.srv.w.mu.Unlock()
+	}
+}
 
 // drain reads until the proxy closes the connection.
 func (c *bconn) drain() {
@@ -66,6 +86,7 @@ func kickPacket(p proto.Protocol, st states.State) *packet.Disconnect {
 func (c *bconn) run(p proto.Protocol) {
 	ep := c.ep
 	defer c.drain()
+	defer c.answer()
 	if _, err := ep.Next(stepTimeout, e2e.IsType[*packet.Handshake]); err != nil {
 		return
 	}
@@ -83,12 +104,15 @@ func (c *bconn) run(p proto.Protocol) {
 	modern := p.GreaterEqual(version.Minecraft_1_20_2)
 	switch beh {
 	case "kl":
+		c.answer()
 		ep.Send(kickPacket(p, states.LoginState))
 		return
 	case "el":
+		c.answer()
 		ep.Conn.Close()
 		return
 	case "enc":
+		c.answer()
 		ep.Send(&packet.EncryptionRequest{ServerID: "", PublicKey: []byte{1, 2, 3}, VerifyToken: []byte{4, 5, 6, 7}})
 		return
 	}
@@ -99,6 +123,7 @@ func (c *bconn) run(p proto.Protocol) {
 		}
 		ep.SetState(state.Config)
 		if beh == "kc" {
+			c.answer()
 			ep.Send(kickPacket(p, states.ConfigState))
 			return
 		}
@@ -115,12 +140,15 @@ func (c *bconn) run(p proto.Protocol) {
 	ep.SetState(state.Play)
 	switch beh {
 	case "kt", "kc":
+		c.answer()
 		ep.Send(kickPacket(p, states.PlayState))
 		return
 	case "et":
+		c.answer()
 		ep.Conn.Close()
 		return
 	}
+	c.answer()
 	c.mu.Lock()
 	c.joined = true
 	c.mu.Unlock()
@@ -169,6 +197,12 @@ func (s *server) Dial(ctx context.Context, _ proxy.Player) (net.Conn, error) {
 	s.mu.Lock()
 	s.conns = append(s.conns, c)
 	s.mu.Unlock()
+	s.w.mu.Lock()
+	s.w.unanswered++
+	if s.w.unanswered > s.w.maxUnanswered {
+		s.w.maxUnanswered = s.w.unanswered
+	}
+	s.w.mu.Unlock()
 	s.w.noteConn(c)
 	go c.run(s.w.proto)
 	return a, nil
@@ -199,6 +233,10 @@ type world struct {
 	mu           sync.Mutex
 	clientClosed bool
 	closing      bool
+	// login attempts the backends have not answered yet, and the maximum seen at a dial since the last resetMax:
+	// the backend-side view of "attempts in flight at the same time"
+	unanswered    int
+	maxUnanswered int
 	allConns     []*bconn
 	newConn      chan *bconn
 	nameHook     func(*server)
@@ -445,6 +483,18 @@ func (w *world) observe(async bool) string {
 		}
 	}
 	return last
+}
+
+func (w *world) resetMax() {
+	w.mu.Lock()
+	w.maxUnanswered = w.unanswered
+	w.mu.Unlock()
+}
+
+func (w *world) maxSeen() int {
+	w.mu.Lock()
+	defer w.mu.Unlock()
+	return w.maxUnanswered
 }
 
 // stalledCount: connections whose script is waiting at its stall point.
